@@ -144,6 +144,10 @@ impl<'de> Visitor<'de> for TwentyByteVisitor {
             }
         }
 
+        if char_iter.next().is_some() {
+            return Err(E::custom(format!("not 20 bytes: {:#?}", value)));
+        }
+
         Ok(arr)
     }
 }
